@@ -40,7 +40,7 @@ def _worker(behs):
         n += 1
         try:
             div = subreplay.run(b, i)
-            if b["setup"] in ("not-subscription", "multi-root"):      # refusals are cheap: both gamma variants of the set-up
+            if b["setup"] in ("not-subscription", "multi-root", "no-sub-resolver"):      # refusals are cheap: both gamma variants of the set-up
                 n += 1
                 div = div + subreplay.run(b, i + 1)
         except BaseException as e:      # (a CancelledError that escapes the implementation is a BaseException)
